@@ -419,10 +419,12 @@ class CFG:
                     k = keys[n.idx]
                     names[k] = {x.id for x in ast.walk(e) if isinstance(x, ast.Name)}
                     imp = False
+                    stable_funcs = {id(x.func) for x in ast.walk(e) if isinstance(x, ast.Call) and isinstance(x.func, ast.Attribute) and isinstance(x.func.value, ast.Name) and x.func.attr in ("is_file", "is_symlink", "is_dir", "exists", "is_absolute") and not x.args}
                     for x in ast.walk(e):
-                        if isinstance(x, (ast.Attribute, ast.Subscript, ast.NamedExpr)):
+                        if isinstance(x, (ast.Attribute, ast.Subscript, ast.NamedExpr)) and id(x) not in stable_funcs:
                             imp = True
-                        elif isinstance(x, ast.Call) and not (isinstance(x.func, ast.Name) and x.func.id in ("isinstance", "len", "callable", "issubclass")):
+                        elif isinstance(x, ast.Call) and not (isinstance(x.func, ast.Name) and x.func.id in ("isinstance", "len", "callable", "issubclass", "hasattr")) and not (
+                                isinstance(x.func, ast.Attribute) and isinstance(x.func.value, ast.Name) and x.func.attr in ("is_file", "is_symlink", "is_dir", "exists", "is_absolute") and not x.args):
                             imp = True
                     pure[k] = not imp
             kills: Dict[int, Tuple[Set[str], bool]] = {}
